@@ -2,7 +2,7 @@
 import re
 from . import sexpr, ref
 
-ABS = re.compile(r"\(as (@[A-Za-z0-9_!]+) ([^()\s]+)\)")
+ABS = re.compile(r"\(as (@[A-Za-z0-9_!]+) (\|[^|]*\||[^()\s]+)\)")
 
 
 def abstract_values(text):
@@ -13,8 +13,16 @@ def abstract_values(text):
     return out
 
 
+def _sname(sort):
+    return re.sub(r"[^A-Za-z0-9_]", "_", sort)
+
+
 def replace_abstract(text):
-    return ABS.sub(lambda m: "|av%s_%s|" % (m.group(1), m.group(2)), text)
+    return ABS.sub(lambda m: "|av%s_%s|" % (m.group(1), _sname(m.group(2))), text)
+
+
+def bare(name):
+    return name[1:-1] if len(name) >= 2 and name[0] == "|" and name[-1] == "|" else name
 
 
 NUMERAL = re.compile(r"(?<![\w@.!|$#])(\d+)(?![\w.])")
@@ -23,7 +31,9 @@ NUMERAL = re.compile(r"(?<![\w@.!|$#])(\d+)(?![\w.])")
 def realize(text):
     """In a logic without Int, opensmt prints Real values as bare numerals ('0', '(/ 5 2)'); SMT-LIB allows that there,
     but z3/cvc5 in logic ALL read them as Int. Turn standalone numerals into decimals."""
-    return NUMERAL.sub(lambda m: m.group(1) + ".0", text)
+    # never inside |quoted symbols|
+    parts = re.split(r"(\|[^|]*\|)", text)
+    return "".join(p if p.startswith("|") else NUMERAL.sub(lambda m: m.group(1) + ".0", p) for p in parts)
 
 
 class ModelError(Exception):
@@ -57,9 +67,9 @@ def model_prelude(decls, model_text, extra_text=""):
     defs = parse_model(model_text)
     defnames = {}
     for name, d in defs:
-        if name in defnames:
+        if bare(name) in defnames:
             problems.append("symbol defined twice in model: " + name)
-        defnames[name] = d
+        defnames[bare(name)] = d
     lines = []
     for d in decls:
         if d.startswith("(declare-sort"):
@@ -68,9 +78,9 @@ def model_prelude(decls, model_text, extra_text=""):
     for sort, names in sorted(av.items()):
         ns = sorted(names)
         for n in ns:
-            lines.append("(declare-fun |av%s_%s| () %s)" % (n, sort, sort))
+            lines.append("(declare-fun |av%s_%s| () %s)" % (n, _sname(sort), sort))
         if len(ns) > 1:
-            lines.append("(assert (distinct %s))" % " ".join("|av%s_%s|" % (n, sort) for n in ns))
+            lines.append("(assert (distinct %s))" % " ".join("|av%s_%s|" % (n, _sname(sort)) for n in ns))
     for d in decls:
         if d.startswith("(declare-sort"):
             continue
@@ -79,14 +89,14 @@ def model_prelude(decls, model_text, extra_text=""):
             lines.append(d)
             continue
         name, args, ret = rk
-        if name not in defnames:
+        if bare(name) not in defnames:
             problems.append("no definition for declared symbol " + name)
             lines.append(d)
             continue
-        md = defnames[name]
+        md = defnames[bare(name)]
         margs = [sexpr.to_str(p[1]) for p in md[2]]
         mret = sexpr.to_str(md[3])
-        if margs != args or mret != ret:
+        if [bare(x) for x in margs] != [bare(x) for x in args] or bare(mret) != bare(ret):
             problems.append("definition of %s has rank %s -> %s, declared %s -> %s" % (name, margs, mret, args, ret))
             lines.append(d)
             continue
